@@ -1,4 +1,28 @@
 """C20 — parameter tables satisfy their consumers' preconditions at every size."""
+# SIZE AUDIT (quick tier), read off cases('quick', ..) (the generator is deterministic, no sampling)
+#   op                               quick                            thorough                         supported / boundaries           verdict
+#   param <every fn> bits            every bits 0..520 x every flag   same                             factor() <= 500, n*k <= 508,     exhaustive in both tiers: every arm
+#   param select_fb_size             every bits 0..1024 x 3 tables    same                             siqs/mpqs <= 448, qs <= 400      boundary of every table and function,
+#   param qsieve::nblocks            1..400                           same                                                              447..449, 400|401, 500|501, 508|509 hit
+#   param max_large_prime            primes to 2^24-1 x factors       same                             result capped at 2^32-1          cap reached (factor 277|278, 1<<20)
+#   param arith_fft::mzp_w           bits 1..512 x logsize {0,1,5,10} x {0,1,2,5,8,10,12,14}           ZmodN <= 512 bits                all sizes
+#   stage2 <table> B2                every row, midpoint +-1/2, 2^e*m to 7*2^46, beyond the last row   f64 labels < 2^53                all rows; 2^32 crossed by the sweep
+#   siqs_/mpqs_consumer bits d       13 sizes (64,90,120,150,181,200, 35 sizes x both d                <= 448 bits (448 reached)        quick MISSED the lower side of every arm
+#                                    256,257,300,341,400,425,448), one d                                                                (65|64.., 89, 119, 149, 169|170, 180, 199,
+#                                                                                                                                       225, 250, 255) and every arm boundary of
+#                                                                                                                                       a_value_count / a_tolerance_divisor /
+#                                                                                                                                       large_prime_factor / mpqs_interval_size
+#   qs_consumer bits d               100,250,347,348,400              14 sizes                         <= 400 bits; maxlarge crosses    347|348 (u32 cap) and 400 reached; 72|73,
+#                                                                                                      2^32 at 347|348                  250|251 missing in quick
+#   convolve_run bits k              15 bit sizes x size 2^0..2^8     x size 2^0..2^12                 dispatch arms by (bits, size),   BOTH tiers only ever selected arms 1 and 2
+#                                                                                                      size to 2^19, bits to 500        (size <= 4096): the bit limits 245|246,
+#                                                                                                                                       280|281, 310|311 in the list were never
+#                                                                                                                                       at a size where they decide anything
+#   fbase_new bits size              5 pairs to (512, 500000)         7 pairs to (512, 7340032)        primes < 2^24                    ok
+# Added (boundary_cases, first in both tiers): SIQS/MPQS consumer runs at 45 arm-boundary sizes below 256 bits (both use_double;
+# >= 219 bits one value in quick) and at 259|260, 289|290 (319|320 thorough); QS at 17, 72|73, 251; convolve_modn at one point
+# per dispatch arm 3..8 on both sides of its bit limit, at 501 bits behind an arm admitting 512 (assert) and at size 2^20 (no arm).
+# Not in quick for cost (1..2 s per run and profile): consumer runs at 319|320, 325, 340, 350, 375, 389|390|391, 393, 424, 440.
 from fractions import Fraction
 from vlib.pipeline import Case
 
@@ -33,7 +57,9 @@ THEOREMS = [
     "Ymq.C20.convolve_dispatch_packing_fails_size_one", "Ymq.C20.convolve_fsize_ok",
 ]
 
-RULE = ("exhaustive: every translated parameter function on every bit length 0..520 (x both values of every flag, x the "
+RULE = ("first, in both tiers: consumer runs (SIQS, MPQS, QS) on both sides of every arm boundary of the parameter functions below 256 bits and at "
+        "259|260, 289|290, convolve_modn at one point per dispatch arm (sizes 2^13..2^18) and out of the domain on both axes; then "
+        "exhaustive: every translated parameter function on every bit length 0..520 (x both values of every flag, x the "
         "three tables; select_fb_size up to 1024 bits), every row / midpoint / off-table B2 of both stage-2 tables, the NTT "
         "prime table, MultiZmodP::new for every modulus size 1..512 x logsize in {0,1,5,10}; consumer runs (FBase::new, "
         "fbase::cofactor with the derived bounds) at breakpoint sizes; non-trivial = every request; distinct by request line")
@@ -80,8 +106,56 @@ def feasible_mod8(bits, flag):
     return bits != 1
 
 
+# ---------------------------------------------------------------- boundary size classes of the consumer runs (size audit)
+
+# bit lengths below 256 at which an arm of some parameter function of siqs.rs / mpqs.rs / params.rs begins or ends (both sides):
+# nfactors 64|65 89|90 119|120 149|150 169|170 199|200 224|225 249|250, a_value_count 48|49 71|72 150|151, a_tolerance_divisor 50|51
+# 70|71 90|91 110|111 140|141 160|161, interval_size 180|181 255|256, large_prime_factor 92|93 96|97 128|129 250|251,
+# mpqs_interval_size 100|101 129|130 189|190 219|220, factor_base_size 159|160, make_prime's floor 16; a run costs milliseconds
+CONSUMER_SMALL = [16, 17, 48, 49, 50, 51, 65, 70, 71, 72, 89, 91, 92, 93, 96, 97, 100, 101, 110, 111, 119, 128, 129, 130, 140,
+                  141, 149, 151, 159, 160, 161, 169, 170, 180, 189, 190, 199, 219, 220, 224, 225, 249, 250, 251, 255]
+# above 256 bits (0.1 .. 0.7 s per run): the arms of mpqs_interval_size (259|260, 289|290; 319|320 thorough only) and, in quick, nothing
+# else: 340|341 and the 25-bit steps of nfactors are in the thorough list
+CONSUMER_LARGE = [259, 260, 289, 290]
+CONSUMER_LARGE_THOROUGH = [319, 320]
+# one in-domain point per arm of the (bits, size) dispatch of convolve_modn that the old list (size <= 2^8 quick, 2^12 thorough:
+# arms 1 and 2 only) never selects, at the cheapest size that selects it and on both sides of its bit limit; and both ways out
+# of the domain (no arm above 2^19; the assert above 500 bits behind an arm that admits 512): (bits, log2 size)
+CONVOLVE_ARMS = [(150, 13), (151, 13), (310, 13), (311, 13), (500, 13), (501, 13),     # arm 1 | arm 3 | arm 5 | assert
+                 (150, 14), (310, 14), (311, 14),                                      # arm 3 (size limit of arm 1) | arm 5
+                 (280, 15), (281, 15),                                                 # arm 4 | arm 5
+                 (2, 20), (500, 20)]                                                   # no arm: panic
+# 0.2 .. 2 s per run: checked profile only in quick
+CONVOLVE_ARMS_SLOW = [(280, 16), (281, 16),                                            # arm 4 | arm 7
+                      (245, 17),                                                       # arm 6
+                      (246, 18)]                                                       # arm 8
+CONVOLVE_ARMS_THOROUGH = [(246, 17), (245, 18), (500, 17), (500, 18)]                  # arm 7 | arm 6 | arm 7 | arm 8
+
+
+def boundary_cases(tier):
+    """consumer runs at every arm boundary of the parameter functions they consume (the old quick list held 13 of the 35 sizes of
+    the thorough list and one value of use_double), the QS run on both sides of its arms, convolve_modn once per dispatch arm"""
+    quick = tier == "quick"
+    for b in CONSUMER_SMALL:
+        for d in ((0,) if quick and b >= 219 else (0, 1)):
+            yield Case(f"siqs_consumer {b} {d}", k=False, timeout=600)
+            yield Case(f"mpqs_consumer {b} {d}", k=False, timeout=600)
+    for b in CONSUMER_LARGE + ([] if quick else CONSUMER_LARGE_THOROUGH):
+        for d in ((1,) if quick else (0, 1)):
+            yield Case(f"siqs_consumer {b} {d}", k=False, timeout=600)
+            yield Case(f"mpqs_consumer {b} {d}", k=False, timeout=600)
+    for b, ds in ((17, (0, 1)), (72, (0, 1)), (73, (0, 1)), (251, (1,))):      # large_prime_factor 72|73, qs_fb_size 250|251
+        for d in ds:
+            yield Case(f"qs_consumer {b} {d}", k=False, timeout=300)
+    for b, k in CONVOLVE_ARMS:
+        yield Case(f"convolve_run {b} {k}", o=b <= 500 and k <= 19, timeout=300)
+    for b, k in CONVOLVE_ARMS_SLOW + ([] if quick else CONVOLVE_ARMS_THOROUGH):
+        yield Case(f"convolve_run {b} {k}", profiles=["chk"] if quick else None, timeout=300)
+
+
 def cases(tier, rng, extended=False):
     top = MAXBITS
+    yield from boundary_cases(tier)
     # tables first: the oracle of the stage2 requests uses them
     yield Case("stage2_table ecm")
     yield Case("stage2_table pm1")
